@@ -24,10 +24,10 @@ echo "== existing suite (lib tests) WITH the change"
 cargo test --offline --lib 2>&1 | grep -E "^test result|FAILED|panicked" | head -5
 echo "== demo WITH the change (expected: FAIL / exit 1)"
 demo
-git stash push -q -- src
+git diff -- src > "$W/.verify_patch.diff"; git checkout -q -- src
 echo "== demo WITHOUT the change (expected: ok / exit 0)"
 demo
-git stash pop -q
+git apply "$W/.verify_patch.diff"; rm -f "$W/.verify_patch.diff"
 git diff --stat -- src | tail -1
 } > "$L" 2>&1
 rm -rf "$W/target-verify"
